@@ -30,10 +30,11 @@ VARIABLES
     owe,        \* per thread: emptied the queue while a waiter slept, broadcast still owed
     snap,       \* per thread: queue was empty at the last full unlock inside wait_empty
     slotC, slotT, slotW,  \* lockset ghost for channel->reinit_thread
-    afterPT, evStale, evAsleep, evUntil, owed   \* event loop timing (NoOutwait)
+    afterPT, evStale, evAsleep, evUntil, owed,  \* event loop timing (NoOutwait)
+    outC        \* requests outstanding when the event thread last computed its sleep
 
 tvars == <<l, viol, evt, api, cur, started, out, owe, snap, slotC, slotT, slotW,
-           afterPT, evStale, evAsleep, evUntil, owed>>
+           afterPT, evStale, evAsleep, evUntil, owed, outC>>
 vars  == <<syncVars, tvars>>
 
 Get(f, t, d) == IF t \in DOMAIN f THEN f[t] ELSE d
@@ -46,6 +47,7 @@ Fresh ==
     /\ owe = <<>> /\ snap = <<>>
     /\ slotC = Mutexes /\ slotT = {} /\ slotW = FALSE
     /\ afterPT = FALSE /\ evStale = FALSE /\ evAsleep = FALSE /\ evUntil = 0 /\ owed = {}
+    /\ outC = {}
 
 TInit == l = 1 /\ Fresh
 
@@ -73,7 +75,8 @@ asleep1  == IF Life THEN FALSE ELSE evAsleep
 stale1   == IF Life THEN FALSE ELSE evStale
 
 UnchangedSync == UNCHANGED syncVars
-Step(v) == l' = l + 1 /\ viol' = v
+StepC(v, oc) == l' = l + 1 /\ viol' = v /\ outC' = oc
+Step(v) == StepC(v, outC)
 
 (* ---- stage 2: one action per event kind --------------------------------- *)
 TBegin ==
@@ -81,7 +84,7 @@ TBegin ==
     /\ evt' = e.ev
     /\ l' = l + 1
     /\ UNCHANGED <<syncVars, viol, api, cur, started, out, owe, snap, slotC, slotT, slotW,
-                   afterPT, evStale, evAsleep, evUntil, owed>>
+                   afterPT, evStale, evAsleep, evUntil, owed, outC>>
 
 TReset ==
     /\ e.k = "reset"
@@ -92,6 +95,7 @@ TReset ==
     /\ evt' = -2 /\ api' = <<>> /\ cur' = <<>> /\ started' = {} /\ out' = {}
     /\ owe' = <<>> /\ snap' = <<>> /\ slotC' = Mutexes /\ slotT' = {} /\ slotW' = FALSE
     /\ afterPT' = FALSE /\ evStale' = FALSE /\ evAsleep' = FALSE /\ evUntil' = 0 /\ owed' = {}
+    /\ outC' = {}
 
 TLock ==
     /\ e.k = "lock" /\ e.m \in Mutexes
@@ -101,7 +105,8 @@ TLock ==
            v == Chk(Chk(Chk(viol1, "lock.not_free", LockFree(t, m)),
                         "lock.order.ev_mutex_held_taking_channel_lock", LockOrderOK(t, m)),
                     "cond_empty.lost_wakeup", ~(outer /\ Get(owe, t, FALSE)))
-       IN /\ Step(v)
+       IN \* the event thread's ares_timeout(): remember what was outstanding
+          /\ StepC(v, IF t = evt /\ afterPT /\ m = "chan" THEN out ELSE outC)
           /\ DoLock(t, m)
           /\ owe' = IF outer THEN Put(owe, t, FALSE) ELSE owe
           /\ started' = IF isSend THEN started \cup {cur[t]} ELSE started
@@ -137,6 +142,16 @@ TCWake ==
     /\ evAsleep' = asleep1 /\ owed' = owed1 /\ evStale' = stale1
     /\ UNCHANGED <<live, joined, slot, rlive, evt, api, cur, started, out, owe, snap, slotC, slotT, slotW,
                    afterPT, evUntil>>
+
+\* cond_empty has any number of waiters (every thread in ares_queue_wait_empty):
+\* a signal wakes one of them, the others keep sleeping although the queue is empty
+TSignal ==
+    /\ e.k = "signal"
+    /\ Step(Chk(Chk(viol1, "cond_empty.broadcast_unlocked", BcastOK(e.t)),
+                "cond_empty.signal_with_several_waiters", Cardinality(cwaiting) <= 1))
+    /\ owe' = IF Cardinality(cwaiting) <= 1 THEN Put(owe, e.t, FALSE) ELSE owe
+    /\ evAsleep' = asleep1 /\ owed' = owed1 /\ evStale' = stale1
+    /\ UNCHANGED <<syncVars, evt, api, cur, started, out, snap, slotC, slotT, slotW, afterPT, evUntil>>
 
 TBcast ==
     /\ e.k = "bcast"
@@ -226,8 +241,11 @@ TCb ==
 TPhase ==
     /\ e.k = "phase"
     /\ LET t == e.t  p == e.p IN
-       /\ Step(Chk(Chk(viol1, "event_loop.phase_with_ev_mutex_held", p \in 1..4 => ~Holds(t, "ev")),
-                   "cond_empty.lost_wakeup", ~(p = 1 /\ Get(owe, t, FALSE))))
+       \* a request that was outstanding when ares_timeout() ran has a deadline: the
+       \* sleep computed from it cannot be unlimited (tmo = 0 means "wait for ever")
+       /\ Step(Chk(Chk(Chk(viol1, "event_loop.phase_with_ev_mutex_held", p \in 1..4 => ~Holds(t, "ev")),
+                       "cond_empty.lost_wakeup", ~(p = 1 /\ Get(owe, t, FALSE))),
+                   "c07.outwait.unlimited_sleep_with_request_outstanding", ~(p = 2 /\ e.tmo = 0 /\ outC # {})))
        /\ afterPT' = IF p = 1 THEN TRUE ELSE IF p = 2 THEN FALSE ELSE afterPT
        /\ evStale' = IF p = 1 THEN FALSE ELSE IF p = 2 THEN TRUE ELSE stale1
        /\ evAsleep' = IF p = 2 THEN TRUE ELSE asleep1
@@ -252,7 +270,7 @@ TEnd ==
 
 TNext ==
     /\ l <= Len(Tr)
-    /\ \/ TBegin \/ TReset \/ TLock \/ TUnlock \/ TCWait \/ TCWake \/ TBcast \/ TCreate \/ TJoin
+    /\ \/ TBegin \/ TReset \/ TLock \/ TUnlock \/ TCWait \/ TCWake \/ TBcast \/ TSignal \/ TCreate \/ TJoin
        \/ TAccess \/ TWake \/ THandle \/ TCall \/ TRet \/ TCb \/ TPhase \/ TDeadline \/ TEnd
 
 TSpec == TInit /\ [][TNext]_vars
